@@ -62,7 +62,11 @@ func hasLoops(fn *ssa.Function) bool {
 func instrCount(fn *ssa.Function) int {
 	n := 0
 	for _, b := range fn.Blocks {
-		n += len(b.Instrs)
+		for _, in := range b.Instrs {
+			if _, dbg := in.(*ssa.DebugRef); !dbg {
+				n++
+			}
+		}
 	}
 	return n
 }
